@@ -1,3 +1,4 @@
+mod alloc;
 mod check;
 mod checks;
 mod driver;
@@ -16,6 +17,9 @@ mod stack;
 mod wire;
 
 use check::{RunConfig, Tier, DEFAULT_SEED};
+
+#[global_allocator]
+static GLOBAL: alloc::Counting = alloc::Counting;
 
 fn usage() -> ! {
     eprintln!("usage: dst check <Cxx> [--tier quick|thorough] [--seed N] [--runs N] [--jobs N] [--no-evidence]\n       dst replay <file>\n       dst list");
